@@ -39,7 +39,13 @@ def gen_case(r, k, same=None, long_=False):
         v = {}
         # "dz": distanceZ of one atom (value = z exactly, Jacobian force 0);
         # "dist": distance of an atom on the z axis from an atom at the origin (value r = z, Jacobian force 2kT/r)
-        v["kind"] = "dist" if r.random() < 0.3 else "dz"
+        # "lin2": a two-component variable c1*distanceZ(atom a) + c2*distanceZ(atom b) with coefficients (1,1) or (1,-1)
+        #         (linear combination: total force = sum_i c_i f_i / sum_i c_i^2, applied force c_i f to component i); the
+        #         generator puts atom b at z = +-1/4 and gives both atoms engine forces e and +-e, so that every
+        #         floating-point operation of the combination is exact and the one-variable model still ties bit-exactly
+        kk = r.random()
+        v["kind"] = "dist" if kk < 0.3 else ("lin2" if kk < 0.45 else "dz")
+        v["c2"] = r.choice([1.0, -1.0])
         v["onesite"] = r.random() < 0.5
         v["periodic"] = v["kind"] == "dz" and r.random() < (0.5 if nd == 1 else 0.25)
         v["w"] = r.choice(WIDTHS)
@@ -177,7 +183,7 @@ def atom_map(c):
     """1-based atom numbers of each variable: (main, None) for distanceZ, (moving atom, atom at the origin) for distance"""
     out, n = [], 0
     for v in c["vars"]:
-        if kind(v) == "dist":
+        if kind(v) in ("dist", "lin2"):
             out.append((n + 2, n + 1))
             n += 2
         else:
@@ -232,7 +238,7 @@ def scenario(c):
     nd = len(c["vars"])
     amap, natoms = atom_map(c)
     L = ["echo CASE %s" % c["id"], "natoms %d" % natoms, "samestep %d" % (1 if c["same"] else 0), "includecv 1",
-         "temperature %s" % fmt(c.get("T", 0.0)), "new", "config EOF"]
+         "temperature %s" % fmt(c.get("T", 0.0)), "prefix %s" % c["id"], "new", "config EOF"]
     for d, v in enumerate(c["vars"]):
         L += ["colvar {", "  name v%d" % d, "  lowerBoundary %s" % fmt(v["lower"]), "  upperBoundary %s" % fmt(v["upper"]),
               "  width %s" % fmt(v["w"])]
@@ -242,6 +248,11 @@ def scenario(c):
             L += ["  distance {", "    group1 { atomNumbers %d }" % amap[d][1], "    group2 { atomNumbers %d }" % amap[d][0]]
             if v.get("onesite"):
                 L += ["    oneSiteTotalForce on"]
+        elif kind(v) == "lin2":
+            L += ["  distanceZ {", "    main { atomNumbers %d }" % amap[d][0], "    ref { dummyAtom (0,0,0) }", "    axis (0,0,1)",
+                  "    oneSiteTotalForce on", "  }",
+                  "  distanceZ {", "    componentCoeff %s" % fmt(v["c2"]), "    main { atomNumbers %d }" % amap[d][1],
+                  "    ref { dummyAtom (0,0,0) }", "    axis (0,0,1)", "    oneSiteTotalForce on"]
         else:
             L += ["  distanceZ {", "    main { atomNumbers %d }" % amap[d][0], "    ref { dummyAtom (0,0,0) }", "    axis (0,0,1)",
                   "    oneSiteTotalForce on"]
@@ -276,7 +287,13 @@ def scenario(c):
             a, a0 = amap[d]
             L.append("pos %d 0 0 %s" % (a, V.hexf(st["z"][d])))
             L.append("eforce %d 0 0 %s" % (a, V.hexf(st["e"][d])))
-            if a0 is not None:     # the partner atom of a distance stays at the origin and feels the opposite force
+            if a0 is not None and kind(c["vars"][d]) == "lin2":
+                # value = z_a + c2 * z_b with z_b = c2/4: z_a = value - 1/4; both components feel the variable force e
+                c2 = c["vars"][d]["c2"]
+                L[-2] = "pos %d 0 0 %s" % (a, V.hexf(st["z"][d] - 0.25))
+                L.append("pos %d 0 0 %s" % (a0, V.hexf(0.25 * c2)))
+                L.append("eforce %d 0 0 %s" % (a0, V.hexf(c2 * st["e"][d])))
+            elif a0 is not None:     # the partner atom of a distance stays at the origin and feels the opposite force
                 L.append("pos %d 0 0 0" % a0)
                 L.append("eforce %d 0 0 %s" % (a0, V.hexf(-st["e"][d])))
         if apply_at(c, st) != cur_apply:
@@ -288,6 +305,8 @@ def scenario(c):
         L.append("dumpabf a")
     # second observation channel: the ABF block of the saved state (samples / gradient = value_output)
     L.append("save text %s.state" % c["id"])
+    # third channel: the <prefix>.count / <prefix>.grad files written at the end of the run
+    L.append("postrun")
     return L
 
 
@@ -539,7 +558,21 @@ def parse_state(path):
         return None
 
 
-def oracle(c, impl_steps, state=None):
+def parse_multicol(path, nd, mult):
+    """values of a multicolumn grid file (colvar_grid::write_multicol): per line nd coordinates then mult values"""
+    try:
+        out = []
+        for l in open(path):
+            w = l.split()
+            if not w or w[0].startswith("#"):
+                continue
+            out += [float(x) for x in w[nd:nd + mult]]
+        return out
+    except (OSError, ValueError):
+        return None
+
+
+def oracle(c, impl_steps, state=None, files=None):
     """property oracle on the implementation's output alone; returns list of (signature, text)"""
     bad = []
     nd = len(c["vars"])
@@ -601,7 +634,9 @@ def oracle(c, impl_steps, state=None):
             sig, why = "sample:hideJacobian-without-applied-force", " (hideJacobian, lagged forces, no bias applies a force to distance variable(s) %s)" % hn
         elif hs and len(hs) == len(dbad):
             sig, why = "sample:hideJacobian-applyBias-switched", " (hideJacobian, lagged forces, applyBias switched at run time, distance variable(s) %s)" % hs
-        elif c.get("scaled") and not c["same"] and (c["apply"] or c.get("toggle")) and all(not c["vars"][d]["sub"] for d in dbad):
+        elif c.get("toggle") and not c["same"] and all(not c["vars"][d]["sub"] for d in dbad):
+            sig, why = "sample:applyBias-switched-stale-applied-force", " (applyBias switched at run time, lagged forces)"
+        elif c.get("scaled") and not c["same"] and c["apply"] and all(not c["vars"][d]["sub"] for d in dbad):
             sig, why = "sample:scaledBiasingForce-unscaled-force-subtracted", " (scaledBiasingForce on, lagged forces)"
         else:
             sig, why = "oracle:sum", ""
@@ -621,6 +656,12 @@ def oracle(c, impl_steps, state=None):
                 bad.append(("oracle:state-samples", "'samples' of the saved state %s differ from the number of attributed samples per bin %s" % (scnt, cnt)))
             elif len(sgrad) != len(mean) or not all(close(a, b, 1e-12) for a, b in zip(mean, sgrad)):
                 bad.append(("oracle:state-gradient", "'gradient' of the saved state %s is not minus the mean of the attributed samples %s" % (sgrad, [float(x) for x in mean])))
+        if files is not None:
+            fcnt, fgrad = files
+            if fcnt is None or [int(x) for x in fcnt] != cnt:
+                bad.append(("oracle:file-count", "the .count file written at the end of the run %s differs from the number of attributed samples per bin %s" % (fcnt, cnt)))
+            elif fgrad is None or len(fgrad) != len(mean) or not all(close(a, b, 1e-9) for a, b in zip(mean, fgrad)):
+                bad.append(("oracle:file-gradient", "the .grad file written at the end of the run %s is not minus the mean of the attributed samples %s" % (fgrad, [float(x) for x in mean])))
     return bad
 
 
@@ -860,6 +901,9 @@ def run_batch(exe, cases, d, tag):
     for c in cases:
         if str(c["id"]) in res:
             res[str(c["id"])]["state"] = parse_state(os.path.join(d, "%s.state" % c["id"]))
+            nd_ = len(c["vars"])
+            res[str(c["id"])]["files"] = (parse_multicol(os.path.join(d, "%s.count" % c["id"]), nd_, 1),
+                                          parse_multicol(os.path.join(d, "%s.grad" % c["id"]), nd_, nd_))
     return rc, res, e
 
 
@@ -980,13 +1024,14 @@ def check(run):
         run.dist("restrained_vars", sum(1 for v in c["vars"] if v["hk"] is not None))
         run.dist("distance_vars_with_jacobian", sum(1 for v in c["vars"] if kind(v) == "dist" and c.get("T", 0.0) != 0.0))
         run.dist("hideJacobian", 1 if c["hideJ"] else 0)
+        run.dist("two_component_vars", sum(1 for v in c["vars"] if kind(v) == "lin2"))
         run.dist("scaledBiasingForce", 1 if c.get("scaled") else 0)
         run.dist("inputPrefix", 1 if c.get("input") else 0)
         run.dist("applyBias_switched_at_run_time", 1 if c.get("toggle") else 0)
         if im.get("state") is not None:
             nstate += 1
         # property oracle on the implementation alone
-        for sig, text in oracle(c, steps_i, im.get("state")):
+        for sig, text in oracle(c, steps_i, im.get("state"), im.get("files")):
             run.violation(sig, "case %s: %s" % (c["id"], text), {"kind": "case", "case": c})
         if im.get("state") is None:
             run.mismatch("abf:state-file", {"case": c}, None, "a text state with an abf block")
@@ -1011,7 +1056,7 @@ def run_witnesses(run, unit, model, d):
         if text:
             run.violation(sig, "scenario %s (minimal input of an earlier defect; the cause given in parentheses is the one found then): %s" % (c["id"], text),
                           {"kind": "case", "case": c})
-        for s_, t_ in oracle(c, im["steps"], im.get("state")):
+        for s_, t_ in oracle(c, im["steps"], im.get("state"), im.get("files")):
             run.violation(s_, "case %s: %s" % (c["id"], t_), {"kind": "case", "case": c})
         ml = V.run_lines(model, [model_case(c)])[1]
         tie_case(run, c, im, ml[0] if ml else None)
@@ -1040,7 +1085,7 @@ def replay(path):
                 print("step %d model: %s" % (t, ms[t]))
         print("state file:", im.get("state"))
         print("spec (attributed samples):", spec)
-        print("oracle:", oracle(c, im["steps"], im.get("state")))
+        print("oracle:", oracle(c, im["steps"], im.get("state"), im.get("files")))
         for wf, sig, judge in WITNESSES:
             if wf()["id"] == c["id"] and len(im["steps"]) == len(c["steps"]):
                 print("judge:", judge(c, im["steps"]))
